@@ -74,7 +74,7 @@ def image_case(draw):
             c["spt"] = 18
     c["surface"] = _small_surface(draw, variant, c["tracks"], c["spt"])
     # an interleaved image whose second side carries no catalogue / an HFE file not padded to 512 after its last track
-    c["blank_side1"] = ext in ("dsd", "ddd") and draw(st.integers(0, 3)) == 0
+    c["blank_side1"] = ext in ("dsd", "ddd") and draw(st.booleans())
     c["hfe_unpadded"] = ext == "hfe" and draw(st.integers(0, 2)) == 0
     # mutations
     muts = []
